@@ -79,11 +79,13 @@ pub fn draw_netcfg(rng: &mut Rng) -> NetCfg {
         2 => Delivery::Random { max_yield: 4, max_burst: 1 },
         _ => Delivery::Random { max_yield: 12, max_burst: 3 },
     };
-    NetCfg { capacity: *rng.pick(&[0usize, 0, 1, 2, 8]), delivery, ..NetCfg::default() }
+    // a third of the transports buffer frames until the sink is flushed
+    let flush_required = rng.chance(33);
+    NetCfg { capacity: *rng.pick(&[0usize, 0, 1, 2, 8]), delivery, flush_required, ..NetCfg::default() }
 }
 
 pub fn netcfg_class(n: &NetCfg) -> String {
-    format!("cap{}{:?}", n.capacity, n.delivery)
+    format!("cap{}{:?}{}", n.capacity, n.delivery, if n.flush_required { "+buffered" } else { "" })
 }
 
 pub struct End {
